@@ -94,6 +94,8 @@ template <class A> A loadText(const std::string& s, SharedDict& sd) { A a; a.Loa
 
 // Parse a Timbuk dump into an RTA. State names are mapped to numbers by `ids` (stable across
 // calls when the same map is passed); symbols must be named s<i>.
+// when a monitor sets this to the alphabet of the current case, fromDump resolves overloaded symbol names by arity
+inline const Alpha*& dumpAlphabet() { static const Alpha* a = nullptr; return a; }
 inline RTA fromDump(const std::string& text, std::map<std::string, St>& ids)
 {
 	auto d = parser().ParseString(text); RTA r;
@@ -102,7 +104,9 @@ inline RTA fromDump(const std::string& text, std::map<std::string, St>& ids)
 	for (auto& t : d.transitions)
 	{
 		RRule q; q.sym = (t.second.size() > 1 && t.second[0] == 's') ? atoi(t.second.c_str() + 1) : -1;
-		for (auto& c : t.first) q.ch.push_back(id(c)); q.par = id(t.third); r.rules.insert(q);
+		for (auto& c : t.first) q.ch.push_back(id(c)); q.par = id(t.third);
+		if (dumpAlphabet() && q.sym >= 0) q.sym = dumpAlphabet()->resolve(q.sym, q.ch.size());
+		r.rules.insert(q);
 	}
 	return r;
 }
